@@ -1,4 +1,5 @@
 """C17 — partitioners keep their contract and the producer honours their choice."""
+from decgen_tie import run_decgen
 
 
 def run(c):
@@ -17,11 +18,15 @@ def run(c):
     if not c.coq_make():
         return
     c.coq_properties()
+    run_decgen(c, "C17")
     b = c.go_build("c17corr")
     if not b:
         return
-    n = 300 if c.tier == "quick" else 4000
-    rc, out = c.run([b, "-out", c.build, "-seed", str(c.seed), "-n", str(n)], timeout=1500)
+    n = 800 if c.tier == "quick" else 8000
+    argv = [b, "-out", c.build, "-seed", str(c.seed), "-n", str(n)]
+    if c.replay:
+        argv += ["-replay", c.replay]
+    rc, out = c.run(argv, timeout=1500)
     if rc != 0:
         c.break_("corr", "c17corr harness run failed", out)
         return
